@@ -16,6 +16,11 @@
 // Calls the model expects to fail (removing absent keys) must return the documented sentinel
 // and must leave the input untouched and no output behind.
 //
+// Once a store (keywords, properties, ...) has shown a violation in a history, model and file
+// have diverged there: that store is neither checked nor edited for the rest of the history
+// (the other stores go on), so that one defect is reported once, under the operation that
+// exposed it.
+//
 // Violation keys: store=<store>/op=<op>/class=<what>/<detail>, e.g.
 // store=properties/op=add/class=missing/keyclass=hash-sign.
 package main
@@ -355,22 +360,18 @@ func (r *runner) verify(o op, file string, st, pre *state) {
 	} else if l.PropErr != nil {
 		r.violate(stProps, o, "list-error", errClass(l.PropErr), l.PropErr.Error())
 	} else {
-		bad := false
 		for _, k := range sortedKeys(st.Props) {
 			want := st.Props[k]
 			got, ok := l.Props[k]
 			switch {
 			case !ok:
-				bad = true
 				r.violate(stProps, o, "missing", "keyclass="+keyClass(k), fmt.Sprintf("property [%s] not listed; listed keys %q", pdftext.Q(k), sortedKeys(l.Props)))
 			case got != want:
-				bad = true
 				r.violate(stProps, o, "value-mismatch", "valclass="+pdftext.DiffClass(want, got), fmt.Sprintf("property [%s]: want [%s] got [%s]", pdftext.Q(k), pdftext.Q(want), pdftext.Q(got)))
 			}
 		}
 		for _, k := range sortedKeys(l.Props) {
 			if _, ok := st.Props[k]; !ok {
-				bad = true
 				r.violate(stProps, o, "extra", "keyclass="+keyClass(k), fmt.Sprintf("property [%s]=[%s] listed but not in model %q", pdftext.Q(k), pdftext.Q(l.Props[k]), sortedKeys(st.Props)))
 			}
 		}
@@ -399,7 +400,6 @@ func (r *runner) verify(o op, file string, st, pre *state) {
 				r.violate(stProps, o, "strict-extra", "keyclass="+keyClass(k), fmt.Sprintf("Info dictionary has entry [%s]=[%s] the model does not have", pdftext.Q(k), pdftext.Q(v.Info[k])))
 			}
 		}
-		_ = bad
 	}
 
 	// --- page layout, page mode
@@ -462,7 +462,6 @@ func (r *runner) verify(o op, file string, st, pre *state) {
 				break // one view is enough to name the defect
 			}
 		}
-		_ = bad
 	}
 
 	// --- attachments
